@@ -213,7 +213,7 @@ pub fn param(r: &mut Rng, edge: usize, p: &Profile) -> String {
     }
 }
 
-const TEXT_SET: [char; 24] = ['a', 'b', 'c', 'x', 'y', 'z', ' ', ' ', '~', 'q', 'l', 'k', 'j', 'm', '\u{7f}', 'é', 'ß', '日', '本', '`', 'A', 'Z', '0', '#'];
+const TEXT_SET: [char; 27] = ['a', 'b', 'c', 'x', 'y', 'z', ' ', ' ', '~', 'q', 'l', 'k', 'j', 'm', '\u{7f}', 'é', 'ß', '日', '本', '`', 'A', 'Z', '0', '#', '\u{1f600}', '\u{10348}', '\u{ffff}'];
 
 pub fn text_char(r: &mut Rng, p: &Profile) -> char {
     if p.wild_text && r.chance(1, 6) {
@@ -295,7 +295,15 @@ pub fn inert_item(r: &mut Rng) -> String {
         2 => {
             let intro = *r.pick(&["\x1bP", "\u{90}"]);
             let term = *r.pick(&["\x1b\\", "\u{9c}"]);
-            let head = *r.pick(&["q", "1;2|", "$q", "+q", "?1$p", ":x", "1:2q", "<q", "0;1;0q", "", "1 ", "!"]);
+            let head: String = match r.below(4) {
+                0 => {
+                    // long parameter list in the DCS header (more than 32 parameters)
+                    let n = 28 + r.below(12);
+                    let ps: Vec<String> = (0..n).map(|_| format!("{}", r.below(10))).collect();
+                    format!("{}{}", ps.join(";"), r.pick(&['q', '|', 'p', '{']))
+                }
+                _ => (*r.pick(&["q", "1;2|", "$q", "+q", "?1$p", ":x", "1:2q", "<q", "0;1;0q", "", "1 ", "!"])).to_string(),
+            };
             format!("{}{}{}{}", intro, head, inert_payload(r, false), term)
         }
         3 => {
@@ -361,9 +369,19 @@ pub fn inert_item(r: &mut Rng) -> String {
         9 => {
             // CSI ignore path: ':' first, or a private marker after parameters
             let intro = *r.pick(&["\x1b[", "\u{9b}"]);
-            let body = *r.pick(&[":1", "1<2", "1;2?", ":", "3 4", "1 ?"]);
-            let f = (0x40 + r.below(0x3f) as u8) as char;
-            format!("{}{}{}", intro, body, f)
+            if r.chance(1, 2) {
+                let body = *r.pick(&[":1", "1<2", "1;2?", ":", "3 4", "1 ?"]);
+                let f = (0x40 + r.below(0x3f) as u8) as char;
+                format!("{}{}{}", intro, body, f)
+            } else {
+                // parameters, intermediate(s), then parameter characters again (ignore path), then a
+                // final byte - biased to finals and intermediates that are implemented elsewhere
+                let pre = *r.pick(&["", "1", "2;3", "?", "?5"]);
+                let inter = *r.pick(&['!', '!', ' ', '$', '#', '\'', '"', '*', '+']);
+                let mid: String = (0..1 + r.below(3)).map(|_| (0x30 + r.below(0x10) as u8) as char).collect();
+                let f = *r.pick(&['p', 'p', 'm', 'h', 'l', 'H', 'J', 'K', 'r', 'q', 'A', 'u', 's', 't', 'c', 'n']);
+                format!("{}{}{}{}{}", intro, pre, inter, mid, f)
+            }
         }
         _ => {
             // unassigned C0 / C1 (those with no function), incl. CAN / SUB / ST in ground
